@@ -606,13 +606,16 @@ impl<'a, C: Crypto + 'a> CaseInitiator<'a, C> {
 
         session.complete();
 
-        exchange.acknowledge().await?;
-
         // Seed the resumption cache with this freshly-established full
         // CASE session so a subsequent handshake with the same peer can
         // attempt resumption. The `resumption_id` came from `TBEData2`
         // in Sigma2 (`peer_resumption_id`); `SharedSecret`, peer id and
         // peer CATs are what we just committed to the `Session`.
+        //
+        // This is done before the acknowledgement below is awaited: since
+        // the fabric was looked up no other task has run. After the await
+        // the fabric may have been removed (and its records purged), and
+        // a record of it must not come back.
         #[cfg(feature = "case-resumption")]
         {
             exchange.with_state(|state| {
@@ -629,6 +632,8 @@ impl<'a, C: Crypto + 'a> CaseInitiator<'a, C> {
             })?;
             exchange.matter().transport().notify_resumption_dirty();
         }
+
+        exchange.acknowledge().await?;
 
         info!(
             "CASE session established: local_sessid={}, peer_sessid={}",
@@ -746,6 +751,19 @@ impl<'a, C: Crypto + 'a> CaseInitiator<'a, C> {
 
         // ---- Populate the reserved session with new keys + secret. ----
         let (peer_addr, local_nodeid) = exchange.with_state(|state| {
+            // Sigma1 was sent and Sigma2_Resume awaited since the record
+            // was copied out of the cache. If it is gone, its fabric was
+            // removed in the meantime (every removal path purges the
+            // records of the fabric) - possibly with another fabric
+            // already sitting at the same index.
+            if state
+                .resumption
+                .find_by_resumption_id(record.resumption_id.reference().access())
+                .is_none()
+            {
+                return Err(ErrorCode::Invalid.into());
+            }
+
             let sess = exchange.id().session(&mut state.sessions);
             let fabric = state.fabrics.fabric(fab_idx)?;
             Ok((sess.get_peer_addr(), fabric.node_id()))
@@ -782,16 +800,34 @@ impl<'a, C: Crypto + 'a> CaseInitiator<'a, C> {
         // `SharedSecret` and peer identity are unchanged; only
         // `resumption_id` rotates. `insert_or_update` refreshes the
         // existing record for this peer and moves it to the tail (MRU).
-        exchange.with_state(|state| {
-            state.resumption.insert_or_update(ResumableSession {
-                fab_idx: record.fab_idx,
-                peer_nodeid: record.peer_nodeid,
-                peer_cat_ids: record.peer_cat_ids,
-                resumption_id: new_rid,
-                shared_secret: record.shared_secret.clone(),
-            });
-            Ok::<_, Error>(())
+        //
+        // Only if the record we resumed from is still cached: while this
+        // task awaited the acknowledgement of SigmaFinished, the fabric
+        // may have been removed (which purged the record and dropped the
+        // session); the rotated record must not come back for a fabric
+        // index that is gone.
+        let rotated = exchange.with_state(|state| {
+            Ok::<_, Error>(state.resumption.rotate(
+                record.resumption_id.reference().access(),
+                ResumableSession {
+                    fab_idx: record.fab_idx,
+                    peer_nodeid: record.peer_nodeid,
+                    peer_cat_ids: record.peer_cat_ids,
+                    resumption_id: new_rid,
+                    shared_secret: record.shared_secret.clone(),
+                },
+            ))
         })?;
+
+        if !rotated {
+            warn!(
+                "CASE resumption (initiator): the record resumed from is no longer cached \
+                 (fabric {} removed?); not caching the rotated resumption id",
+                record.fab_idx.get()
+            );
+            return Ok(());
+        }
+
         exchange.matter().transport().notify_resumption_dirty();
 
         info!(
